@@ -261,6 +261,19 @@ def rule_handover(ctx, rep):
             rep.check(bool(wkd), "C03.handover", fl + ".wake-default", "the default helper (which received the callbacks) is woken after the hand-over",
                       "after the hand-over splice the receiving (default) helper is not woken%s: if it sleeps, the handed-over callbacks - possibly an rcu_barrier() marker - are never run"
                       % (" (the dying helper is woken instead)" if wk else ""), [sp[0].where()])
+            if wkd:
+                # ... and unconditionally: whether the *receiving* helper sleeps is decided by its own futex word (tested inside the
+                # wake-up helper), never by a property of the dying helper (its RT flag, its queue length, ...)
+                def _default_rt_edge(a):
+                    # (default_call_rcu_data->flags & RT) != 0: the receiving helper polls and needs no wake-up
+                    if not (a[0] == "ne" and a[2] == ("c", 0) and a[1][0] == "bin" and a[1][1] == "and" and a[1][2][0] == "load" and a[1][2][1].endswith("call_rcu_data.flags")):
+                        return False
+                    ld = f.insts[a[1][2][3]]
+                    bi = f.inst_of(ld.d["ap"]["base"])
+                    return bi is not None and bi.op == "load" and pat.base_global(bi.d["ap"]) == "default_call_rcu_data"
+                rt_edges = [(t.blk.id, s_) for t, s_, a in pat.branch_edges_on(f, _default_rt_edge)]
+                rep.must_take_edge("C03.handover", fl + ".wake-default-every-path", f, sp, None, rt_edges, to_exit=True, include_start=False, avoid=lambda i: i in wkd,
+                                   what="every path from the hand-over splice to the return tests the default helper's futex word, unless the *default* helper is a polling (RT) one")
             ql = [e.inst for e in pat.accesses(f, "call_rcu_data.qlen", ("rmw",)) if e.inst.id in f.reachable_set(sp)]
             rep.check(bool(ql), "C03.handover", fl + ".qlen", "default helper's qlen credited", "qlen of the default helper not updated", [sp[0].where()])
         # list removal: under the mutex, and in the same critical section as the hand-over (no unlock between splice and list_del)
@@ -417,10 +430,9 @@ def rule_who(ctx, rep):
             allowed = set(k % F.pfx if "%s" in k else k for k in table)
             found = {}
             for f in m.defined():
-                for i in f.all_insts():
-                    if i.op in ("store", "rmw", "cmpxchg") and pat.base_global(i.d["ap"]) == g and not ir.ap_fields(i.d["ap"]):
-                        found.setdefault(i.origin_fn, []).append(i)
-                        rep.touch(f)
+                for i in pat.writes(f, glob=g):        # plain stores and atomic RMWs (IR or inline asm)
+                    found.setdefault(i.origin_fn if i.origin_fn not in ("__uatomic_cmpxchg", "__uatomic_exchange") else next((c for c in i.scope_chain if not c.startswith("__uatomic")), i.origin_fn), []).append(i)
+                    rep.touch(f)
             pat.require(found, "%s: no writer of %s found" % (fl, g))
             extra = sorted(set(found) - allowed)
             required = set(k % F.pfx if "%s" in k else k for k in REQUIRED_WRITERS[g])
@@ -486,6 +498,53 @@ def rule_default(ctx, rep):
                   "get_default_call_rcu_data: %s - call_rcu() then enqueues through a NULL helper" % (bad[0] if bad else ""), [bad[1].where()] if bad else [])
 
 
+def rule_publast(ctx, rep):
+    """Publish-last for the helper-selection structures call_rcu() reads without call_rcu_mutex: a freshly allocated object
+    (default helper, per-CPU pointer array) is completely initialised before the release store that publishes it, and no plain
+    store / memset touches it afterwards.  call_rcu() on another CPU dereferences the published pointer at once: an array
+    published before it is cleared makes it enqueue onto whatever the recycled heap bytes point to."""
+    n = 0
+    for fl in ALL:
+        F = FL[fl]
+        m = ctx.mod(F.lib, "flat")
+        for f in m.defined():
+            for s_ in f.all_insts():
+                if not (s_.op == "store" and s_.d["order"] in ("release", "seq_cst")):
+                    continue
+                v = ir.strip_casts(f, s_.args[0])
+                vi = f.inst_of(v)
+                if vi is None or not (vi.op == "call" and vi.callee in ("malloc", "calloc", "realloc")):
+                    continue
+                n += 1
+                rep.touch(f)
+                tgt = ir.ap_str(f, s_.d["ap"])
+                after = f.reachable_set([s_])
+                late = []
+                for i in f.all_insts():
+                    if i.id not in after:
+                        continue
+                    if i.op == "store" and i.d["order"] == "na" and i.d["ap"]["base"] == ["i", vi.id]:
+                        late.append(i)
+                    if i.op == "call" and i.callee and (i.callee.startswith("llvm.mem") or i.callee in ("memset", "memcpy")):
+                        d = ir.strip_casts(f, i.args[0])
+                        di = f.inst_of(d)
+                        if d == ["i", vi.id] or (di is not None and di.op == "load" and ir.ap_str(f, di.d["ap"]) == tgt):
+                            late.append(i)
+                rep.check(not late, "C03.publast", "%s.%s.%s.nothing-after-publish" % (fl, f.name, tgt.lstrip("@")), "no initialising write follows the publication of %s" % tgt,
+                          "%s is published (release store) before it is fully initialised: %d plain write(s)/memset follow; a concurrent call_rcu() reads it uninitialised" % (tgt, len(late)),
+                          [s_.where()] + [x.where() for x in late[:2]])
+                if vi.callee == "malloc":
+                    # malloc'ed memory has no defined content: something initialises it before the publication
+                    init = [i for i in f.all_insts() if (i.op == "store" and i.d["ap"]["base"] == ["i", vi.id]) or
+                            (i.op == "call" and i.callee and (i.callee.startswith("llvm.mem") or i.callee == "memset") and ir.strip_casts(f, i.args[0]) == ["i", vi.id])]
+                    if not init:
+                        rep.bad("C03.publast", "%s.%s.%s.initialised" % (fl, f.name, tgt.lstrip("@")), "%s: malloc'ed object published without any initialisation" % tgt, [s_.where()])
+                    else:
+                        rep.must_pass("C03.publast", "%s.%s.%s.init≺publish" % (fl, f.name, tgt.lstrip("@")), f, [vi], [s_], lambda i: i in init,
+                                      what="the malloc'ed object is written before it is published")
+    pat.require(n >= 8, "only %d publications of freshly allocated objects found" % n)
+
+
 RULES = [
     ("C03.flags", rule_flags),
     ("C03.gp", rule_gp),
@@ -498,6 +557,7 @@ RULES = [
     ("C03.cb-nolock", rule_cb_nolock),
     ("C03.who", rule_who),
     ("C03.default", rule_default),
+    ("C03.publast", rule_publast),
     ("C03.wake", rule_wake),
 ]
 FLOORS = {}
